@@ -234,6 +234,19 @@ pub fn generate(tier: &str, rng: &mut Prng) -> Vec<Case> {
                 let nn = if rng.chance(1, 8) { 1536 - n } else { n };
                 ops.push(Case::new(format!("{ty}_from_bytes {nn} {}", hex(&b))));
             }
+            // a valid encoding (and a few mutated ones) offered to both variants' decoders in sequence on one thread
+            for k in 0..(if tier == "thorough" { 64 } else { 12 }) {
+                let b = if k % 4 == 3 {
+                    mutated(rng, ty, n)
+                } else {
+                    match ty {
+                        "pk" => valid_pk(rng, n),
+                        "sk" => valid_sk(rng, n),
+                        _ => valid_sig(rng, n),
+                    }
+                };
+                ops.push(Case::new(format!("dec_seq {ty} {}", hex(&b))));
+            }
             // degenerate lengths
             for l in [0usize, 1, 2, 3] {
                 ops.push(Case::new(format!("{ty}_from_bytes {n} {}", hex(&vec![0x59u8; l]))));
@@ -244,6 +257,18 @@ pub fn generate(tier: &str, rng: &mut Prng) -> Vec<Case> {
 }
 
 pub fn oracle(op: &[&str], out: &str) -> Verdict {
+    if op[0] == "dec_seq" {
+        if out.starts_with("PANIC") {
+            return Verdict::Fail(format!("a decoder panicked in the sequence 512, 1024, 512: {out}"));
+        }
+        let name = format!("{}_from_bytes", op[1]);
+        for (part, n) in out.split(" | ").zip(["512", "1024", "512"]) {
+            if let Verdict::Fail(why) = oracle(&[name.as_str(), n, op[2]], part) {
+                return Verdict::Fail(format!("decoding under {n} in the sequence 512, 1024, 512 on one thread: {why}"));
+            }
+        }
+        return Verdict::Pass;
+    }
     let ty = match op[0] {
         "pk_from_bytes" => "pk",
         "sk_from_bytes" => "sk",
